@@ -719,9 +719,25 @@ func c13Unknown(c *Ctx, bed *px.Bed, j c13Job) {
 			wit := map[string]interface{}{"byte": fmt.Sprintf("0x%02x", b), "opcode": c13OpName(op), "frame_hex": fmt.Sprintf("%x", wire), "barrier": res, "frames": c13Kinds(cl.Frames())}
 			switch {
 			case res == "timeout":
-				// the bytes after an unknown version byte may be framed differently by the proxy; it may legitimately wait for more
+				// the bytes after an unknown version byte may be framed differently by the proxy; it may legitimately wait for more -
+				// unless the frame was complete in the layout its version byte stands for (version 1: the 8-byte header of v1/v2) and
+				// complete frames followed it: then nothing the proxy could be waiting for is still to come. Decided by progress, not
+				// by the clock: another connection completes 50 round trips and this one is still neither answered nor closed.
 				r.Obs("unknown_bytes_waiting", 1)
-				r.Inconc(fmt.Sprintf("unknown version byte 0x%02x: neither closed nor answered within the watchdog", b))
+				decided := false
+				if b&0x7f == 1 {
+					if other, err := bed.Client(primitive.ProtocolVersion4); err == nil {
+						if ProgressSteps(other, 50, 900) && !cl.IsClosed() && len(cl.OnStream(1000)) == 0 {
+							decided = true
+							r.Violate(mon.Violation{Signature: fmt.Sprintf("C13/unknown-version/%s/neither-answered-nor-closed", class), Scenario: scen, Witness: wit,
+								Detail: fmt.Sprintf("version byte 0x%02x %s, sent with the 8-byte header that version 1 frames have and followed by a well-formed OPTIONS frame: the connection was not closed, and neither frame was answered while another connection completed 50 round trips (frames received: %s)", b, c13OpName(op), c13Kinds(cl.Frames()))})
+						}
+						other.Close()
+					}
+				}
+				if !decided {
+					r.Inconc(fmt.Sprintf("unknown version byte 0x%02x: neither closed nor answered within the watchdog", b))
+				}
 			case res == "closed":
 				// closed connection: allowed. Whatever arrived before the close must not be a normal answer.
 				for _, f := range cl.Frames() {
